@@ -83,6 +83,36 @@ func xmlTokens(b []byte, each func(t xml.Token)) bool {
 // XMLWellFormed judges a document or fragment.
 func XMLWellFormed(b []byte) bool { return xmlTokens(b, nil) }
 
+// SVGStyles returns the text of style elements (whole sheets) and the style attributes (declaration lists).
+func SVGStyles(b []byte) (sheets, decls [][]byte, ok bool) {
+	inStyle := 0
+	var cur []byte
+	ok = xmlTokens(b, func(t xml.Token) {
+		switch v := t.(type) {
+		case xml.StartElement:
+			if v.Name.Local == "style" {
+				inStyle++
+				cur = nil
+			}
+			for _, a := range v.Attr {
+				if a.Name.Local == "style" && a.Name.Space == "" {
+					decls = append(decls, []byte(a.Value))
+				}
+			}
+		case xml.EndElement:
+			if v.Name.Local == "style" && inStyle > 0 {
+				inStyle--
+				sheets = append(sheets, cur)
+			}
+		case xml.CharData:
+			if inStyle > 0 {
+				cur = append(cur, v...)
+			}
+		}
+	})
+	return
+}
+
 // SVGPaths returns the d attributes of path elements (nil, false when not well-formed).
 func SVGPaths(b []byte) ([][]byte, bool) {
 	var out [][]byte
@@ -260,6 +290,7 @@ type CSSReport struct {
 	BadURL    int // bad-url-token
 	Closers   int // ) ] } without a matching opener
 	Open      int // blocks still open at EOF
+	OpenStr   int // a string still open at EOF (the rest of the sheet was swallowed by it)
 }
 
 func cssNewline(c byte) bool { return c == '\n' || c == '\r' || c == '\f' }
@@ -356,6 +387,7 @@ func CSSCheck(b []byte) CSSReport {
 			l.i++
 			for {
 				if !l.has(0) {
+					r.OpenStr++
 					break
 				}
 				d := l.at(0)
